@@ -25,6 +25,9 @@ func init() {
 			ruleCountLoop(c)
 			rulePtrTag(c)
 			ruleEntryPresence(c)
+			ruleSameTag(c)
+			// every documented field index (0 included) is accepted by the builder (C01-r14-m1)
+			ruleIndexEnds(c)
 			ruleProtoMapEntry(c)
 			rulePointerWrapper(c)
 			ruleOverlayKey(c)
